@@ -204,6 +204,13 @@ type wana struct {
 	devPkgs      map[string]bool
 	fieldAssigns map[*types.Var][]fieldAssign
 	byLit        map[*ast.FuncLit]*wfunc
+	// static calls of a function of the module from its own package
+	callSites map[string][]callSite
+}
+
+type callSite struct {
+	in   *wfunc
+	call *ast.CallExpr
 }
 
 func (a *wana) txt(n ast.Node) string {
@@ -769,7 +776,7 @@ func analyseWriters(ld loaded, raw map[string]map[string]bool) ([]wrow, map[stri
 	}
 	a := &wana{funcs: map[string]*wfunc{}, byObj: map[*types.Func]*wfunc{}, carriers: map[string]map[int]bool{}, raw: raw,
 		sinks: map[string]map[int]map[string]bool{}, devPkgs: map[string]bool{}, fieldAssigns: map[*types.Var][]fieldAssign{},
-		byLit: map[*ast.FuncLit]*wfunc{}}
+		byLit: map[*ast.FuncLit]*wfunc{}, callSites: map[string][]callSite{}}
 	var roots []*wfunc
 	packages.Visit(pkgs, nil, func(p *packages.Package) {
 		if !strings.HasPrefix(p.PkgPath, mod) {
@@ -820,6 +827,9 @@ func analyseWriters(ld loaded, raw map[string]map[string]bool) ([]wrow, map[stri
 		a.collectCalls(a.funcs[n])
 	}
 	static := map[string]map[string]bool{}
+	for _, n := range names {
+		a.collectCallSites(a.funcs[n])
+	}
 	for _, c := range a.calls {
 		for _, m := range c.mods {
 			if static[c.in.name] == nil {
@@ -957,6 +967,23 @@ func sinkName(ext string, i int) string {
 		return ext + "#recv"
 	}
 	return fmt.Sprintf("%s#%d", ext, i)
+}
+
+// collectCallSites: static calls of functions / methods of the same package (not of closures)
+func (a *wana) collectCallSites(f *wfunc) {
+	ast.Inspect(f.body, func(n ast.Node) bool {
+		switch v := n.(type) {
+		case *ast.FuncLit:
+			return false
+		case *ast.CallExpr:
+			if fo := calleeFunc(f.info, v); fo != nil {
+				if g := a.byObj[fo.Origin()]; g != nil && g.pkgPath == f.pkgPath {
+					a.callSites[g.name] = append(a.callSites[g.name], callSite{f, v})
+				}
+			}
+		}
+		return true
+	})
 }
 
 // collectFieldAssigns: every assignment to a field of a struct (x.f = e, x.f += e, T{f: e}, T{e0, e1})
